@@ -1048,6 +1048,11 @@ class Exec:
         iter_raises = list(self.ctx.iter_raises); self.ctx.iter_raises = []
         if setup is not None:
             st.env[idx] = VInt(0); st.env['seq%d_' % k] = setup
+        # a local first assigned inside the loop and declared in the contract: an arbitrary value of its type before the first iteration
+        # (Python: unbound -- reading it after zero iterations is UnboundLocalError, which the contract's invariant must rule out)
+        for n_ in self.modified(s)[0]:
+            if n_ not in st.env and n_ in self.ctx.c.locals:
+                v_ = fresh(n_, self.ctx.c.locals[n_]); st.pc += wf(v_); alloc_bound(st, v_); st.env[n_] = v_
         # 1. invariant holds on entry
         for inv in invs:
             self.ctx.oblige(st, 'loop%d/inv%s/entry' % (k, inv.label), self.spec_eval(inv.text, st, st.env), s, props=inv.props, kind='loop-inv-entry')
